@@ -10,7 +10,19 @@ from . import models2
 
 
 # ------------------------------------------------------------------ helpers
+class PredQ:
+    """a char *predicate* used as a str pattern (`s.find(char::is_uppercase)`, `s.split(|c| c == ',')`): compares equal to the chars it
+    accepts, so every model that walks a list of pattern chars handles predicates as well"""
+    __slots__ = ('fn',)
+
+    def __init__(self, fn):
+        self.fn = fn
+
+
 def cmp_char_eq(m, a, b):
+    if isinstance(b, PredQ):
+        r = m.call_closure(b.fn, [a])
+        return r if isinstance(r, bool) else m.ctx.decide(r)
     if not is_sym(a) and not is_sym(b):
         return a == b
     return m.ctx.decide(bv(a, CH) == bv(b, CH))
@@ -243,6 +255,9 @@ def _pat_pred(m, pat):
         return ('chars', p)
     if isinstance(p, int) or is_sym(p):
         return ('chars', [p])
+    from .interp import Closure
+    if isinstance(p, Closure) or (isinstance(p, tuple) and p and p[0] in ('zst', 'path')):
+        return ('chars', [PredQ(('path', p[1]) if isinstance(p, tuple) else p)])
     raise Unsupported(f'pattern {p!r}')
 
 
@@ -3157,3 +3172,66 @@ def _(m, callee, args):
     else:
         r = a == b
     return r if callee.endswith('::eq') else not r
+
+
+# ---- catch-alls for the pattern-taking str methods (any pattern kind: &str, char, &[char], closure, fn item); more specific models
+# registered earlier keep priority
+def _segments(m, cs, pat):
+    """[(start, end)] of the non-overlapping matches of the pattern in cs, left to right"""
+    kind, p = _pat_pred(m, pat)
+    hits = []
+    if kind == 'str':
+        if not p:
+            raise Unsupported('empty string pattern')
+        i = 0
+        while True:
+            i = find(m, cs, p, i)
+            if i < 0:
+                break
+            hits.append((i, i + len(p)))
+            i += len(p)
+    else:
+        for k, c in enumerate(cs):
+            if any(cmp_char_eq(m, c, q) for q in p):
+                hits.append((k, k + 1))
+    return hits
+
+
+@model(r'str::<impl str>::split_once::<')
+def _(m, callee, args):
+    cs = rstr(m, args[0]).cs
+    hits = _segments(m, cs, args[1])
+    if not hits:
+        return NONE()
+    a, b_ = hits[0]
+    return some((S(cs[:a]), S(cs[b_:])))
+
+
+@model(r'str::<impl str>::(split|rsplit|split_terminator|split_inclusive)::<')
+def _(m, callee, args):
+    cs = rstr(m, args[0]).cs
+    hits = _segments(m, cs, args[1])
+    parts, start = [], 0
+    incl = 'split_inclusive' in callee
+    for a, b_ in hits:
+        parts.append(cs[start:b_ if incl else a])
+        start = b_
+    if start < len(cs) or not ('split_terminator' in callee or incl):
+        parts.append(cs[start:])
+    if '::rsplit::<' in callee:
+        parts.reverse()
+    return PyIter('list', items=[S(x) for x in parts], pos=0)
+
+
+@model(r'str::<impl str>::(replace|replacen)::<')
+def _(m, callee, args):
+    cs = rstr(m, args[0]).cs
+    to = rstr(m, args[2]).cs
+    hits = _segments(m, cs, args[1])
+    if 'replacen' in callee:
+        hits = hits[:args[3]]
+    out, start = [], 0
+    for a, b_ in hits:
+        out += cs[start:a] + to
+        start = b_
+    return RStr(out + cs[start:])
